@@ -61,6 +61,24 @@ func v6ShrexTerminal(a string) bool {
 	return a == "honest" || atEnd
 }
 
+// v6QuickAtEnd: the contents the quick tier combines with "arrives exactly as the caller gives up" (thorough: all).
+var v6QuickAtEnd = map[string]bool{"honest": true, "other:0": true, "othersq": true, "longsq": true, "ext": true,
+	"gshare": true, "gproof": true, "truncmsg": true}
+
+func v6TierAlphabet(alpha []string, thorough bool) []string {
+	if thorough {
+		return alpha
+	}
+	var out []string
+	for _, a := range alpha {
+		if inner, e := v6AtEndOf(a); e && !v6QuickAtEnd[inner] {
+			continue
+		}
+		out = append(out, a)
+	}
+	return out
+}
+
 // v6Special: the answer families that are combined with a reduced set of other answers where the full
 // product is too large (transfers that die midway, answers that arrive as the caller gives up).
 func v6Special(a string) bool {
@@ -94,6 +112,7 @@ type v6Bounds struct {
 	shrexLenX  int // ... for the squares beyond the first two
 	bsLen      int
 	cascadeLen int
+	ladder     int // largest burst of concurrent retrievals
 }
 
 type v6Phase struct {
@@ -189,7 +208,7 @@ func v6Phases(sqs []*v6Square, b v6Bounds) []v6Phase {
 				}
 				for _, r := range s.reqs {
 					keys := r.Keys(s)
-					alpha := s.answersFor(keys[0], len(keys) == 1)
+					alpha := v6TierAlphabet(s.answersFor(keys[0], len(keys) == 1), b.thorough)
 					pools := pools
 					if maxLen >= 3 {
 						if s.Idx > 0 {
@@ -278,7 +297,7 @@ func v6Phases(sqs []*v6Square, b v6Bounds) []v6Phase {
 				for _, s := range sqs {
 					for _, r := range s.reqs {
 						keys := r.Keys(s)
-						alpha := s.answersFor(keys[0], len(keys) == 1)
+						alpha := v6TierAlphabet(s.answersFor(keys[0], len(keys) == 1), b.thorough)
 						if wiring == "bridge" && maxLen == 0 {
 							// the store getter in front holds the block: nothing else is asked
 							if !yield(v6Case{Wiring: wiring, Sq: s.Idx, Req: r, D: "d8500ms", Extra: 1, Local: "hit"}) {
@@ -319,7 +338,53 @@ func v6Phases(sqs []*v6Square, b v6Bounds) []v6Phase {
 		}
 	}
 
+	loadPhase := func(yield func(v6Case) bool) {
+		sqIdx := 1 // the 4-wide square: every request type incl. multi-row namespace data and ranges
+		if len(sqs) < 2 {
+			sqIdx = 0
+		}
+		nReq := len(v6BurstReqs(sqs[sqIdx]))
+		for _, wiring := range []string{"bs-light", "bs-bridge", "light", "bridge", "shrex"} {
+			base := v6Case{Wiring: wiring, Sq: sqIdx, Bs: []string{"honest"}, D: "none"}
+			if wiring == "bridge" {
+				base.Local = "miss"
+			}
+			peers := func(n int) int {
+				if wiring == "shrex" {
+					return n + 9 // never fewer peers than concurrent requests (two-sample calls issue two)
+				}
+				return 0 // cascades: no shrex peer at all, so every retrieval falls through to bitswap
+			}
+			// retrievals after shutdown, every request type
+			for _, c := range []v6Case{
+				{Bursts: []int{nReq}, StopAt: -1},
+				{Bursts: []int{nReq, nReq}, StopAt: 1},
+				{Bursts: []int{1, nReq}, StopAt: 1},
+			} {
+				cc := base
+				cc.Bursts, cc.StopAt, cc.Extra = c.Bursts, c.StopAt, peers(2*nReq)
+				if !yield(cc) {
+					return
+				}
+			}
+			// the ladder
+			for n := 1; n <= b.ladder; n++ {
+				for _, m := range []int{n - 1, n, n + 1} {
+					if m < 1 {
+						continue
+					}
+					cc := base
+					cc.Bursts, cc.Extra = []int{n, m}, peers(2*(n+1))
+					if !yield(cc) {
+						return
+					}
+				}
+			}
+		}
+	}
+
 	var ph []v6Phase
+	ph = append(ph, v6Phase{fmt.Sprintf("load: bursts of n concurrent honest retrievals followed by n-1/n/n+1 on the same getters, n = 1..%d, and retrievals after the getters were stopped; bitswap getter (both block stores), both cascades, shrex getter", b.ladder), loadPhase})
 	for l := 0; l <= b.shrexLen; l++ {
 		ph = append(ph, v6Phase{fmt.Sprintf("shrex getter alone, %d scripted answer(s) per request", l), shrexPhase(l)})
 		if l <= b.bsLen {
@@ -363,9 +428,9 @@ func TestVerifC06(t *testing.T) {
 		"the local store in front of the bridge cascade is a real store.Store (recent-blocks cache size 0) on tmpfs",
 	}
 	thorough := rep.Tier == "thorough"
-	b := v6Bounds{thorough: thorough, squares: 2, shrexLen: 2, shrexLenX: 2, bsLen: 2, cascadeLen: 1}
+	b := v6Bounds{thorough: thorough, squares: 2, shrexLen: 2, shrexLenX: 2, bsLen: 2, cascadeLen: 1, ladder: 40}
 	if thorough {
-		b = v6Bounds{thorough: true, squares: len(v6Layouts), shrexLen: 3, shrexLenX: 2, bsLen: 3, cascadeLen: 2}
+		b = v6Bounds{thorough: true, squares: len(v6Layouts), shrexLen: 3, shrexLenX: 2, bsLen: 3, cascadeLen: 2, ladder: 70}
 	}
 
 	// --- setup (outside any bubble)
